@@ -74,6 +74,8 @@ func cliScript(kind, in string) string {
 		return "add_key(t0, \"1970-01-01T00:00:00Z\")\ndefault_time(t0)\n"
 	case "setTimeBefore":
 		return "add_key(t0, \"1969-07-20T20:17:40Z\")\ndefault_time(t0)\n"
+	case "timeKey":
+		return "add_key(nf, 5)\nadd_key(time, 1600000000123456789)\n"
 	case "dropMsg":
 		return "add_key(keep, 1)\ndrop_key(message)\n"
 	case "useSibling":
@@ -395,6 +397,8 @@ func replayCli(args []string) (any, error) {
 			bad("the sibling script's effect is missing / unexpected")
 		case tagMoved != v.Out.Totag:
 			bad("the moved-to-tag key is not where the script left it")
+		case v.Cfg.Kind == "timeKey" && fmt.Sprint(got.Fields["time"]) != "1.6000000001234568e+18" && fmt.Sprint(got.Fields["time"]) != "1600000000123456789":
+			bad(fmt.Sprintf("the integer field `time` the script left is printed as %v", got.Fields["time"]))
 		case v.Cfg.Kind == "dropMsg" && hasMsg:
 			bad("message was dropped by the script but is printed")
 		}
